@@ -215,7 +215,7 @@ fn worker_lane<W: World>(a: &WorkerArgs) -> i32 {
                     };
                     let _ = writeln!(out, "F {}", serde_json::to_string(&fl).unwrap());
                 }
-                if i < 3 {
+                if i < 3 || std::env::var("VERIF_DUMP").is_ok() {
                     let _ = writeln!(out, "C {i} {}", serde_json::to_string(&case).unwrap());
                 }
             }
@@ -299,8 +299,8 @@ pub fn hang_limit(tier: Tier) -> Duration {
     match std::env::var("VERIF_HANG_SECS").ok().and_then(|s| s.parse::<u64>().ok()) {
         Some(s) => Duration::from_secs(s),
         None => match tier {
-            Tier::Quick => Duration::from_secs(30),
-            Tier::Thorough => Duration::from_secs(120),
+            Tier::Quick => Duration::from_secs(60),
+            Tier::Thorough => Duration::from_secs(180),
         },
     }
 }
